@@ -567,6 +567,7 @@ def replay_real(case):
         return (al >= -tol * h) & (al <= h * (1 + tol)) & (rr <= r * (1 + tol))
 
     if kind == 'tables':
+        first_zz = {}
         for name, disk, lo, hi, gen in (('cheap', quadratures.disk12, 5, 15, 'leg'), ('medium', quadratures.disk55, 7, 25, 'cheb'), ('expensive', quadratures.disk256_cheb, 11, 35, 'cheb')):
             for k in range(lo, hi + 1):
                 ratio = k / {'cheap': 5, 'medium': 7, 'expensive': 11}[name]
@@ -577,6 +578,16 @@ def replay_real(case):
                     bad.append(f'{name} k={k}: reference point outside the unit cylinder')
                 if np.any(w <= 0):
                     bad.append(f'{name} k={k}: non-positive weight')
+                # deterministic: asking again (same solid, same kind; other kinds in between share node tables) gives the same rule
+                p1, w1 = c_.quadrature(name)
+                p2, w2 = c_.quadrature(name)
+                if not (np.array_equal(p1.values, p2.values) and np.array_equal(w1.values, w2.values)):
+                    bad.append(f'{name} k={k}: a second call of quadrature() returns different points/weights (max weight change {np.abs(w1.values - w2.values).max():.3g})')
+                # the axial rule depends on (generator, k) only: its normalised second moment is the same whichever kind uses it
+                zz = (w * z * z).sum() / w.sum()
+                first_zz.setdefault((gen, k), zz)
+                if abs(zz - first_zz[(gen, k)]) > 1e-9:
+                    bad.append(f'{name} k={k}: normalised axial second moment {zz} differs from the first use of this {gen} rule ({first_zz[(gen, k)]})')
                 if abs(w.sum() - 2 * np.pi) > 1e-6:
                     bad.append(f'{name} k={k}: sum of weights {w.sum()} != 2 pi')
                 # low degree = what the product rule is built to integrate: degree <= 2 in the disk, degree <= 1 along the axis
